@@ -68,10 +68,11 @@ chk("C19", "exploration",
     "DESIGN.md §5 C19", "grid")
 
 C20_TEXT_E = "Schedules (clause: no interleaving of requests, subscriptions and event deliveries crashes or deadlocks): stateless model checking of the real rpc/ethereum/pubsub and rpc/namespaces/ethereum/eth/filters code. A typed AST rewriter generates, from the current tree, an overlay in which channels, select, go, sync and time are operations of a cooperative scheduler; ten closed scenarios (subscribe/poll/Unsubscribe clients on one or two topics, re-subscription, error responses, the event bus alone, polling filters with the timeout loop) are explored depth-first over all schedules with at most 2 (thorough: 3) deviations from the default schedule plus a preemption-bounded (CHESS) pass on the smallest systems; every execution runs to quiescence; a panic in any goroutine, a blocked driver thread, a goroutine that spins forever while nothing else can run, two map accesses not ordered by any lock / channel operation / spawn (vector clocks; the Go runtime aborts the process on concurrent map access) or a foreign event delivered to a subscriber is a violation; every failing schedule is a replayable choice list. Scenarios S7-S9 drive the polling-filter half of the filter API (eth_newBlockFilter / newFilter / newPendingTransactionFilter / getFilterChanges / uninstallFilter and the timeout loop under a virtual clock)."
-chk("C20", "model_checking", C20_TEXT_E,
+C20_TEXT_AD = "Inputs (a-d): every byte string of length <= 2 and every truncation / single-byte substitution of six seed transactions (also of the embedded MarshalledTx and the From field) through CheckTx (new, recheck), PrepareProposal, ProcessProposal, FinalizeBlock+Commit and Simulate of the real app; for every method of every registered custom precompile (enumerated from the registry and the ABI) selector-only, truncated, word-substituted and garbage-extended call data as transactions and through EthCall / EstimateGas; every gRPC query method of x/evm, x/cpc, x/feemarket, x/vauth (enumerated from the service descriptors) with empty, valid, field-perturbed and short raw requests; consensus MaxGas in {-1, 0, 1, 2, 21000, 2^63-1} x MaxBytes x block shapes, every failing tx kind at every position of 3-tx blocks, fee-market histories up to base fee >= 2^64 and governance proposals carrying Ethereum messages: no panic escapes an ABCI call, FinalizeBlock / Commit never fail; isolation: blocks [t1, X.., t2] against twin blocks [t1, t2] for every failing X - results of t1 and t2 are identical up to the documented index / cumulative-gas shifts. Quick: 210 320 inputs, 469 122 ABCI calls. "
+chk("C20", "model_checking", C20_TEXT_AD + C20_TEXT_E,
     "Only map accesses are race-checked (happens-before vector clocks), other unsynchronised memory accesses are invisible to a cooperative scheduler; rpc/websockets.go and the rpc.Notifier based methods of filters/api.go are not driven; CometBFT's websocket client is a shim; bounds as stated in the evidence file.",
-    "stateless model checking (controlled cooperative scheduler over instrumented real code, deviation-bounded DFS of schedules)",
-    "DESIGN.md §3.4, §5 C20", "schedx")
+    "stateless model checking (controlled cooperative scheduler over instrumented real code, deviation-bounded DFS of schedules, vector-clock race detection) + exhaustive bounded input enumeration through all ABCI phases with twin-block isolation oracle",
+    "DESIGN.md §3.4, §5 C20, §10", "schedx")
 
 chk("C15", "exploration",
     "Exhaustive product program x account kind x vesting end time x clock placement on the real app: 49 (thorough 77) target accounts per world (module accounts, base accounts, contract, the four vesting kinds as zero-balance zero-sequence and as funded multi-denom accounts with end times around the block time) x 19 (40) programs (plain tx / CALL / STATICCALL / BALANCE / EXTCODE* / value transfer / SELFDESTRUCT beneficiary / the account as sender spending into locked coins, through FinalizeBlock on a fresh app; CreateAccount / DestroyAccount / Suicide / SubBalance at StateDB level on CacheContext branches) in two worlds whose block time lies before (2001) and after (2100) any plausible wall clock. After every case all auth accounts, balances of every denom, code hash and storage are compared with the pre-state: protected accounts survive with the same type and locked coins unless the tx fails as a whole, only empty or self-destructed accounts disappear, deleted accounts leave nothing behind, and the vesting cut-off follows block time.",
